@@ -23,6 +23,8 @@
 #include <string>
 #include <tuple>
 #include <vector>
+#define VERIF_PAINT_NEW 1
+#include "../painted.h"
 
 namespace {
 
@@ -497,6 +499,7 @@ int main() {
     std::unique_ptr<IUniverse> uni;
     std::string line;
     while (std::getline(std::cin, line)) {
+        verif::paintLine(line);   // painted `new` (harness/painted.h)
         std::istringstream is(line);
         std::vector<std::string> t;
         std::string w;
